@@ -132,6 +132,7 @@ type Exec struct {
 	Prog   *Program
 	TS     *TermStore
 	Sol    *Solver
+	CertSol *Solver // separate clean context for the partial-order certificate
 	FPMode bool
 
 	gs      []*G
@@ -200,6 +201,7 @@ type Exec struct {
 	Concrete map[string]string // concrete mode: assignment of the nondet inputs
 	Obs      []Observation
 	NoMerge bool
+	SkipReach bool // termination-only cases: Reach points are recorded without a satisfiability query
 	MergeBudget int
 	SkipInits bool
 	inInit bool
